@@ -177,6 +177,7 @@ def check(ctx, report):
         if not scsv_tabulation(ctx, report, hello, hello.methods['_parse'], hello.methods['compose'], RULE='C01.R10'):
             report.undecided.append('C01.R10: the client hello left the subset the tabulation understands (C05.R3 reads its shape)')
     equality(ctx, report)
+    clock_defaults(ctx, report)
     if 'SslRecord' in reviewed and reviewed['SslRecord'].get('strip_header'):
         # the header left out of the element-wise comparison above
         from .c06 import ssl2_header
@@ -427,3 +428,139 @@ def equality(ctx, report, RULE='C01.R9'):
                        'only there compare equal, so the round trip cannot be told from a lossy one' % (
                            x, 'attrs generated' if '__eq__' not in provider.methods else 'explicit', provider.name))
     report.floor(RULE, 250, 'parsable classes')
+
+
+# ---- R11: defaults that read the clock ------------------------------------------------------------------------------------
+
+def clock_defaults(ctx, report, RULE='C01.R11'):
+    """an attrs default that reads the clock produces an instant with microseconds; the wire carries what the composer writes
+    (whole seconds for gmt_unix_time).  Default factory, composer and parser of such a class are evaluated as a pipeline: the
+    object the library builds by itself must come back equal"""
+    import ast
+    from ..miniexec import Evaluator, Native, Obj, Raised, Unsupported, class_call_hook
+    model = ctx.model
+    report.rule(RULE, 'a default that reads the clock is a value the wire can carry: default -> compose -> parse gives the default back')
+    CLOCKS = ('datetime.datetime.utcnow', 'datetime.datetime.now', 'datetime.utcnow', 'datetime.now', 'time.time')
+    found = []
+    for c in model.all_classes:
+        for fld in getattr(c, 'own_fields', []):
+            m = getattr(fld, 'default_method', None)
+            if m is not None and any(isinstance(n, ast.Call) and ast.unparse(n.func) in CLOCKS for n in ast.walk(m.node)):
+                found.append((c, fld, m))
+
+    class Instant(Native):
+        def __init__(self, seconds, microsecond=0, tz=None):
+            self.seconds, self.microsecond, self.tzinfo = seconds, microsecond, tz
+
+        def utctimetuple(self):
+            return ('tuple', self.seconds)
+
+        timetuple = utctimetuple
+
+        def timestamp(self):
+            return self.seconds + self.microsecond / 1e6
+
+        def replace(self, **kw):
+            if set(kw) - {'microsecond', 'tzinfo'}:
+                raise Unsupported('replace(%s)' % sorted(kw))
+            return Instant(self.seconds, kw.get('microsecond', self.microsecond), kw.get('tzinfo', self.tzinfo))
+
+        def same(self, other):
+            return isinstance(other, Instant) and (self.seconds, self.microsecond) == (other.seconds, other.microsecond)
+
+    class Parser(Native):
+        def __init__(self, data):
+            self.data, self.parsed_length, self.values = bytes(data), 0, {}
+
+        def parse_numeric(self, name, size, converter=int):
+            v = int.from_bytes(self.data[self.parsed_length:self.parsed_length + size], 'big')
+            self.parsed_length += size
+            self.values[name] = converter(v) if converter is not int else v
+
+        def parse_timestamp(self, name, milliseconds=False, item_size=8):
+            v = int.from_bytes(self.data[self.parsed_length:self.parsed_length + item_size], 'big')
+            self.parsed_length += item_size
+            self.values[name] = Instant(v // 1000, (v % 1000) * 1000) if milliseconds else Instant(v)
+
+        def parse_parsable(self, name, cls_):
+            self.values[name] = ('nested', bytes(self.data[self.parsed_length:self.parsed_length + 28]))
+            self.parsed_length += 28
+
+        def __getitem__(self, name):
+            return self.values[name]
+
+    class Composer(Native):
+        def __init__(self):
+            self.out = bytearray()
+
+        def compose_numeric(self, value, size):
+            self.out += int(value).to_bytes(size, 'big')
+
+        def compose_timestamp(self, value, milliseconds=False, item_size=8):
+            v = value.seconds * 1000 + value.microsecond // 1000 if milliseconds else value.seconds
+            self.out += int(v).to_bytes(item_size, 'big')
+
+        def compose_parsable(self, value):
+            self.out += b'R' * 28
+
+        @property
+        def composed_bytes(self):
+            return bytearray(self.out)
+
+        composed = composed_bytes
+    for c, fld, m in found:
+        report.count(RULE)
+        report.touch(m)
+        fp, fc = c.resolve('_parse'), c.resolve('compose')
+        if fp is None or fc is None:
+            continue
+        made = {}
+
+        def extra(n, ev, c=c, made=made):
+            d = ast.unparse(n.func)
+            if d in CLOCKS:
+                return Instant(1700000000, 654321)
+            if d == 'calendar.timegm':
+                t = ev.ev(n.args[0])
+                return t[1]
+            if d == 'ParserBinary':
+                return Parser(ev.ev(n.args[0]))
+            if d == 'ComposerBinary':
+                return Composer()
+            if d in (c.name, 'cls'):
+                made['args'] = [ev.ev(a) for a in n.args]
+                made['kw'] = {k.arg: ev.ev(k.value) for k in n.keywords if k.arg}
+                return ('object',)
+            return NotImplemented
+
+        def names(name):
+            if name in ('datetime.datetime.utcfromtimestamp', 'datetime.datetime.fromtimestamp'):
+                return lambda s: Instant(s)
+            if name == 'int':
+                return int
+            raise Unsupported('free name ' + name)
+        hook = class_call_hook(c, extra, model)
+        nh = hook.name_hook_for(c.module, names)
+        try:
+            default = Evaluator({'self': Obj()}, hook, nh).function(m.node)
+            if not isinstance(default, Instant):
+                raise Unsupported('the default is %r' % (default,))
+            names_in_order = [f.name for f in c.attrs_fields()]
+            me = Obj(**{n: ('nested', b'R' * 28) for n in names_in_order})
+            setattr(me, fld.name, default)
+            wire = Evaluator({'self': me}, hook, nh).function(fc.node)
+            Evaluator({'cls': 'cls', 'parsable': bytes(wire)}, hook, nh).function(fp.node)
+            got = made.get('kw', {}).get(fld.name)
+            if got is None and names_in_order and fld.name in names_in_order and len(made.get('args', [])) > names_in_order.index(fld.name):
+                got = made['args'][names_in_order.index(fld.name)]
+            if not isinstance(got, Instant):
+                raise Unsupported('the parser builds %r' % (made,))
+            if not default.same(got):
+                report.add(RULE, '%s@default[%s]' % (c.construct, fld.name),
+                           'the default of %s.%s reads the clock with microseconds (%d.%06d); composed and parsed it comes back as %d.%06d: an object built '
+                           'with defaults is not equal to its own round trip' % (c.name, fld.name, default.seconds, default.microsecond, got.seconds, got.microsecond))
+            else:
+                report.sample({'rule': RULE, 'class': c.name, 'field': fld.name, 'verdict': 'default survives compose / parse'})
+        except (Unsupported, Raised) as e:
+            report.add(RULE, '%s@default[%s]' % (c.construct, fld.name), 'default / compose / parse of %s left the subset the evaluation understands: %s' % (c.name, e))
+    report.floor(RULE, 1, 'defaults that read the clock')
